@@ -875,8 +875,8 @@ def check_swap_modemap(chk, pool):
 def conv_cases(chk):
     rng = chk.rng
     cases = []
-    per_fw = chk.pick(14, 60)
-    cap = chk.pick(7, 9)     # photons in the converted processor when every two-qubit gate is heralded
+    per_fw = chk.pick(14, 45)
+    cap = chk.pick(7, 8)     # photons in the converted processor when every two-qubit gate is heralded
     for fw in ("qiskit", "myqlm", "cqasm"):
         for i in range(per_fw):
             n = rng.choice(chk.pick((2, 3, 3), (2, 3, 3, 4)))
